@@ -151,6 +151,27 @@ def make_pair(case):
     elif mode == "edit":
         t1 = t0.copy(name="T1")
         edit(rng, t1, rng.randint(0, 10))
+    elif mode == "wide":
+        # very wide fan-out (positions beyond 256): one parent with some 300 children on both sides, the second side with
+        # none, one or a few children moved, removed or added
+        from nutree import Tree
+
+        t0 = Tree("T0")
+        top = t0.add("hub") if rng.random() < 0.5 else t0
+        for i in range(rng.randint(258, 320)):
+            top.add(f"w{i}")
+        t1 = t0.copy(name="T1")
+        hub1 = t1.find_first("hub") or t1
+        for _ in range(rng.choice([0, 0, 1, 2])):
+            kids = list(hub1.children)
+            r = rng.random()
+            if r < 0.4:
+                a_, b_ = rng.sample(kids[250:], 2)
+                a_.move_to(hub1, before=b_)
+            elif r < 0.7:
+                rng.choice(kids[200:]).remove()
+            else:
+                hub1.add(f"late{rng.randrange(10**6)}", before=rng.choice([None, kids[-1], kids[-3]]))
     else:
         t1 = rand_tree(rng, "T1", rng.randint(0, 14))
     if case["seed"] % 3 == 0:
@@ -329,6 +350,28 @@ def run_case(case, res):
                         errs, marks = ["diff/oracle raised: " + short_tb()], 0
                     total_marks += marks
                     bad += [f"[ordered={ordered},reduce={reduce}] {e}" for e in errs]
+            # state over time: the second tree is edited in ways that keep every parent's child count (children re-ordered),
+            # then the same pair of tree objects is compared again - all laws hold for the pair as it is now
+            if case["mode"] in ("edit", "indep", "same") and case["seed"] % 2 == 0:
+                rng2 = rng_for(case["seed"], "c11-again")
+                parents = [p for p in [t1._root] + list(t1) if len(p.children) >= 2]
+                moved = 0
+                for p in rng2.sample(parents, min(2, len(parents))):
+                    try:
+                        p.children[-1].move_to(p, before=True)
+                        moved += 1
+                    except Exception:
+                        pass
+                if moved:
+                    res.count("pairs_compared_again_after_reordering")
+                    for ordered in (False, True):
+                        try:
+                            errs, marks = check(t0, t1, ordered, False, res)
+                        except CaseTimeout:
+                            raise
+                        except Exception:
+                            errs = ["diff/oracle raised: " + short_tb()]
+                        bad += [f"[second comparison of the same tree objects after re-ordering children of the second tree, ordered={ordered}] {e}" for e in errs]
             res.count(f"mode:{case['mode']}")
             res.case(case, nontrivial=t0.count >= 4 and t1.count >= 4 and total_marks > 0,
                      digest=[paths_key(t0), paths_key(t1)])
@@ -357,6 +400,8 @@ def run_shard(spec, res):
     rng = rng_for(spec["seed"], "c11-shard", spec["i"])
     for j in range(spec["count"]):
         mode = rng.choice(["same", "edit", "edit", "edit", "edit", "indep", "indep", "self" if j % 3 == 0 else "edit"])
+        if j % 40 == 7:
+            mode = "wide"
         run_case({"seed": rng.randrange(10**9), "mode": mode}, res)
         if res.expired():
             break
